@@ -49,6 +49,8 @@ var c13lines = []c13line{
 	{name: "port-65536", pairs: `{"ip":"10.0.3.3","port":65536}`, addrs: "", cause: "port"},
 	{name: "port-negative", pairs: `{"ip":"10.0.3.3","port":-1}`, addrs: "", cause: "port"},
 	{name: "invalid-json", pairs: `{"ip":"10.0.3.3","port":80`, addrs: `{"ip":"10.0.3.3"`, cause: "json", causeAddrs: "json"},
+	{name: "trailing-junk", pairs: `{"ip":"10.0.3.3","port":80}}`, addrs: `{"ip":"10.0.3.3"}}`, cause: "json", causeAddrs: "json"},
+	{name: "glued-records", pairs: `{"ip":"10.0.3.3","port":80}{"ip":"10.0.3.4","port":80}`, addrs: `{"ip":"10.0.3.3"}{"ip":"10.0.3.4"}`, cause: "json", causeAddrs: "json"},
 	{name: "blank", pairs: ``, addrs: ``, cause: "json", causeAddrs: "json"},
 	{name: "long-line", pairs: `{"ip":"10.0.3.3","port":80,"x":"` + strings.Repeat("y", 70000) + `"}`, addrs: `{"ip":"10.0.3.3","x":"` + strings.Repeat("y", 70000) + `"}`, cause: "toolong", causeAddrs: "toolong"},
 }
